@@ -24,7 +24,7 @@ EXTRACT = ["C09"]
 BINS = ["c09"]
 NEEDS_CICADA = True
 ALLOWED_AXIOMS = []
-PINNED = ["C09_full", "C09_refuted", "C09_partial", "C09_step", "C09_abs", "C09_pwd"]
+PINNED = ["C09_full", "C09_refuted", "C09_partial", "C09_step", "C09_abs", "C09_refuted_ifs_shadowed", "C09_refuted_read_rejoined", "C09_refuted_cd_home_missing", "C09_refuted_cd_home_not_exported", "C09_nonvacuous"]
 TRUSTED = [
     "Coq 8.16.1 kernel (coqc; coqchk in thorough); vm_compute only in Example witnesses and refutation witnesses",
     "hand transcription of set_env/get_env/remove_env/expand_one_env's lookup, drain_env_tokens, run_proc, the child "
